@@ -93,3 +93,74 @@ Proof.
   all: cbn; repeat split; try exact I; repeat constructor; try (intros []); try discriminate.
   all: try match goal with H : In _ [] |- _ => destruct H end.
 Qed.
+
+(* ---- C15 with REST traffic in between: a socket session without a token still owns nothing ---- *)
+From WB Require Import Proofs.WorldAuth.
+
+Lemma rest_op_creates r o c : rest_op r = Some o -> ~ creates o c.
+Proof. destruct r; cbn [rest_op]; intros [= <-]; cbn [creates]; exact (fun H => H). Qed.
+
+Lemma wrest_WInv w tok r :
+  WInv w -> (forall o, rest_op r = Some o -> rest_served w tok r = true -> is_crash (snd (step (w_core w) o)) = false) ->
+  WInv (fst (fst (wrest w tok r))).
+Proof.
+  intros HW Hsafe. unfold wrest, rest_handle.
+  assert (Hserved : rest_served w tok r = false -> WInv (fst (fst (wrest w tok r)))) by
+    (intros E; unfold wrest, rest_handle, rest_served in *; destruct (w_auth_required w); [destruct tok as [| |cl]; try exact HW; destruct (rest_requirement r) as [p pat]; rewrite E; exact HW|discriminate]).
+  destruct (rest_served w tok r) eqn:Es; [|now apply Hserved]. clear Hserved.
+  assert (E : (if w_auth_required w then match tok with TNone => Some 401 | TInvalid => Some 403 | TClaims cl => let '(p, pat) := rest_requirement r in if authorize cl p pat then None else Some 403 end else None) = None).
+  { unfold rest_served in Es. destruct (w_auth_required w); [|reflexivity]. destruct tok as [| |cl]; try discriminate. destruct (rest_requirement r) as [p pat]. now rewrite Es. }
+  rewrite E. destruct (rest_op r) as [o|] eqn:Eo; [|exact HW].
+  pose proof (Hsafe o eq_refl eq_refl) as Hnc. pose proof (step_owned (w_core w) o) as S.
+  destruct (step (w_core w) o) as [core' out] eqn:Est. cbn [fst snd] in *.
+  intros Ha sn Hq Ho. cbn [set_core w_core w_auth_required] in Ho, Ha.
+  destruct (S (cid_of sn) Hnc Ho) as [H|Hc]; [|now elim (rest_op_creates r o (cid_of sn) Eo)].
+  apply (HW Ha sn); [|exact H]. unfold quiet, sess_open in *. exact Hq.
+Qed.
+
+Definition wwf (w : world) (x : wevent) : Prop := match x with WS e => wf_ev w e | WR _ _ => True end.
+Fixpoint wwf_hist (w : world) (xs : list wevent) : Prop :=
+  match xs with [] => True | x :: r => wwf w x /\ wwf_hist (fst (wstep w x)) r end.
+
+Lemma wstep_auth w x : w_auth_required (fst (wstep w x)) = w_auth_required w.
+Proof.
+  destruct x as [e|tok r]; cbn [wstep]; [apply sstep_auth|]. unfold wrest. destruct (rest_handle _ _ _ _) as [[core' out] resp]. reflexivity.
+Qed.
+
+Theorem mixed_reach_WInv xs : forall w,
+  Inv (w_core w) -> LH (w_core w) -> WInv w -> Forall wev_ok xs -> wwf_hist w xs ->
+  WInv (wfinal' w xs) /\ w_auth_required (wfinal' w xs) = w_auth_required w.
+Proof.
+  induction xs as [|x xs IH]; intros w HI HLH HW Hev Hwf; [split; [assumption|reflexivity]|].
+  apply Forall_cons_iff in Hev as (Hx & Hxs). destruct Hwf as (Hw1 & Hwf).
+  cbn [wfinal' fold_left]. fold (wfinal' (fst (wstep w x)) xs).
+  assert (Hcore : Inv (w_core (fst (wstep w x))) /\ LH (w_core (fst (wstep w x)))).
+  { rewrite wstep_core. pose proof (wops_safe w x Hx) as Hs. destruct (wops w x) as [|o [|o' l]] eqn:Eo.
+    - split; assumption.
+    - apply Forall_cons_iff in Hs as (Hs & _). unfold final. cbn [fold_left]. destruct (step_safe (w_core w) o HI HLH Hs) as (_ & H1 & H2). split; assumption.
+    - exfalso. destruct x as [e|tok r]; cbn [wops] in Eo; [unfold ops_of in Eo; destruct (core_op w e); discriminate|].
+      destruct (rest_served w tok r); [destruct (rest_op r)|]; discriminate. }
+  destruct Hcore as (HI' & HLH').
+  assert (HW' : WInv (fst (wstep w x))).
+  { destruct x as [e|tok r]; cbn [wstep].
+    - apply sstep_WInv; [exact HW|exact Hw1|].
+      intros o Ho. pose proof (core_op_safe w e o Hx Ho) as Hs. destruct (step_safe (w_core w) o HI HLH Hs) as (Hnc & _). now apply not_crash_is.
+    - assert (G := wrest_WInv w tok r HW). destruct (wrest w tok r) as [[w' out] resp]. cbn [fst] in *. apply G.
+      intros o Ho Hsv. pose proof (wops_safe w (WR tok r) Hx) as Hs. cbn [wops] in Hs. rewrite Hsv, Ho in Hs.
+      apply Forall_cons_iff in Hs as (Hs & _). destruct (step_safe (w_core w) o HI HLH Hs) as (Hnc & _). now apply not_crash_is. }
+  destruct (IH (fst (wstep w x)) HI' HLH' HW' Hxs Hwf) as (H1 & H2). split; [exact H1|]. now rewrite H2, wstep_auth.
+Qed.
+
+(* with authorization required, after ANY history of socket events and REST requests: a line from a session that has
+   presented no valid token is refused or ends the session, and leaves the whole core as it was *)
+Theorem mixed_no_token_no_service xs sn s m :
+  Forall wev_ok xs -> wwf_hist (world_init true) xs ->
+  let w := wfinal' (world_init true) xs in
+  lookup_n sn (w_sess w) = Some s -> ss_open s = true -> ss_claims s = None ->
+  let '(w1, out, v) := handle w sn m in
+  w_core w1 = w_core w /\ Forall (fun x => fst x = sn /\ is_refusal (snd x)) out.
+Proof.
+  intros Hev Hwf w Hl Hop Hcl.
+  destruct (mixed_reach_WInv xs (world_init true) Inv_init LH_init (WInv_init true) Hev Hwf) as (HW & Ha). fold w in HW, Ha.
+  exact (tokenless_no_effect w sn s m HW Ha Hl Hop Hcl).
+Qed.
